@@ -196,7 +196,8 @@ def opt_unwrap_or_default(ctx, args, st):
     ty = m.group(1).strip() if m else ''
     if ty in INT_TYPES: return ret(st, Int(0, ty))
     if ty == 'bool': return ret(st, Bool(False))
-    raise Unsupported(f'unwrap_or_default for {ty}')
+    # any other type: run its Default impl from the MIR
+    return ctx.ex.call(f'<{ty} as Default>::default', [], st, ctx.depth, caller=ctx.caller)
 
 
 @model(OPT + r'filter::<')
